@@ -70,6 +70,8 @@ def order_tag(expr, fn, depth=0):
         sl = expr.slice
         if _is_argsort_of_indices(sl, fn):
             return 'SORTED'
+        if _is_rank_of_indices(sl, fn):
+            return 'RANK-PERMUTED'      # values[rank]: the INVERSE of the sorting permutation is applied
         return order_tag(expr.value, fn, depth + 1) if isinstance(sl, ast.Slice) else None
     if isinstance(expr, ast.Attribute) and src(expr) == 'self.values':
         defs = [s for s in own_nodes(fn) if isinstance(s, ast.Assign) and src(s.targets[0]) == 'self.values']
@@ -83,12 +85,42 @@ def _is_else_of_scalar_test(stmt):
     return isinstance(p, ast.If) and 'isscalar' in src(p.test) and stmt in p.orelse
 
 
+def _is_rank_of_indices(e, fn):
+    """name bound to the `inverse` output of np.unique(indices, return_inverse=True) (= rank of each index)
+    or to argsort(argsort(indices))."""
+    if isinstance(e, ast.Call) and call_name(e) == 'np.argsort' and e.args and _is_argsort_of_indices(e.args[0], fn):
+        return True
+    if isinstance(e, ast.Name):
+        for s in own_nodes(fn):
+            if isinstance(s, ast.Assign) and isinstance(s.targets[0], ast.Tuple) and isinstance(s.value, ast.Call) \
+                    and call_name(s.value) == 'np.unique' and s.value.args and 'indices' in src(s.value.args[0]):
+                kinds = [k.arg for k in s.value.keywords if isinstance(k.value, ast.Constant) and k.value.value is True]
+                order = [k for k in ('return_index', 'return_inverse', 'return_counts') if k in kinds]
+                names = [src(x) for x in s.targets[0].elts]
+                if e.id in names and names.index(e.id) >= 1:
+                    i = names.index(e.id) - 1
+                    if i < len(order) and order[i] == 'return_inverse':
+                        return True
+    return False
+
+
 def _is_argsort_of_indices(e, fn):
     if isinstance(e, ast.Call) and call_name(e) in ('np.argsort',) and e.args and 'indices' in src(e.args[0]):
         return True
     if isinstance(e, ast.Name):
         defs = [s for s in own_nodes(fn) if isinstance(s, ast.Assign) and src(s.targets[0]) == e.id]
-        return bool(defs) and all(_is_argsort_of_indices(s.value, fn) for s in defs)
+        if defs:
+            return all(_is_argsort_of_indices(s.value, fn) for s in defs)
+        # first-occurrence positions of np.unique(indices, return_index=True) sort unique indices
+        for s in own_nodes(fn):
+            if isinstance(s, ast.Assign) and isinstance(s.targets[0], ast.Tuple) and isinstance(s.value, ast.Call) \
+                    and call_name(s.value) == 'np.unique' and s.value.args and 'indices' in src(s.value.args[0]):
+                kinds = [k.arg for k in s.value.keywords if isinstance(k.value, ast.Constant) and k.value.value is True]
+                order = [k for k in ('return_index', 'return_inverse', 'return_counts') if k in kinds]
+                names = [src(x) for x in s.targets[0].elts]
+                if e.id in names and names.index(e.id) >= 1:
+                    i = names.index(e.id) - 1
+                    return i < len(order) and order[i] == 'return_index'
     return False
 
 
@@ -154,8 +186,31 @@ def r10_2(ctx):
     r = guards.returns_of(cb.node)[-1].value
     ok = isinstance(ri, ast.Constant) and ri.value is True and len(names) == 2 and isinstance(r, ast.Tuple) and \
         src(r.elts[0]) == names[0] and src(r.elts[1]).replace(' ', '') == 'values[%s]' % names[1] and src(u[0].value.args[0]) == 'indices'
-    ctx.decide('R10.2', cb.qual, '%s ; return %s' % (src(u[0]), src(r)), ok, u[0],
-               'unique indices with the positions of their first occurrences; the same positions select the values')
+    # semantic part: which selector pairs the values with the unique indices?
+    sel = None
+    if isinstance(r, ast.Tuple) and len(r.elts) == 2:
+        v = r.elts[1]
+        if isinstance(v, ast.Name):
+            ds = [s for s in own_nodes(cb.node) if isinstance(s, ast.Assign) and src(s.targets[0]) == v.id]
+            v = ds[-1].value if ds else v
+        if isinstance(v, ast.Subscript) and src(v.value) == 'values':
+            sel = src(v.slice)
+    kinds = {k.arg for k in u[0].value.keywords if isinstance(k.value, ast.Constant) and k.value.value is True}
+    pos = {n: i for i, n in enumerate(names)}
+    if ok:
+        ctx.met('R10.2', cb.qual, '%s ; return %s' % (src(u[0]), src(r)), u[0],
+                'unique indices with the positions of their first occurrences; the same positions select the values')
+    elif sel is not None and sel in pos and pos[sel] >= 1:
+        # outputs of np.unique in order: unique, [index], [inverse], [counts]
+        order = [k for k in ('return_index', 'return_inverse', 'return_counts') if k in kinds]
+        which = order[pos[sel] - 1] if pos[sel] - 1 < len(order) else None
+        ctx.decide('R10.2', cb.qual, '%s ; values[%s]' % (src(u[0]), sel), which == 'return_index', u[0],
+                   'values must be selected by the first-occurrence positions (return_index); %s gives %s' % (sel, which), definite=True)
+    elif sel is not None and sel not in pos:
+        ctx.violated('R10.2', cb.qual, '%s ; values[%s]' % (src(u[0]), sel), u[0],
+                     'the values are selected by an expression unrelated to np.unique: indices and values are decoupled')
+    else:
+        ctx.undecided('R10.2', cb.qual, '%s ; return %s' % (src(u[0]), src(r)), u[0], 'pairing of unique indices and values not recognised')
     cat = {src(s.targets[0]): src(s.value).replace(' ', '') for s in own_nodes(cb.node) if isinstance(s, ast.Assign) and len(s.targets) == 1}
     ok = cat.get('indices') == 'np.concatenate([indforind,_inbcs])' and cat.get('values') == 'np.concatenate([valfor_,valinbcs])'
     ctx.decide('R10.2', cb.qual, 'indices/values concatenated over the same sequence in the same order', ok or None, cb.node)
@@ -216,6 +271,14 @@ def r10_4(ctx):
     gens = [(src(g.target), src(g.iter).replace(' ', '')) for g in comp[0].generators]
     ok = gens == [('ax', 'range(len(kvs))'), ('bd', '(0,1)')] and src(comp[0].elt).replace(' ', '') == '((ax,bd),dir_func)'
     ctx.decide('R10.4', cds.qual, src(comp[0]), ok, comp[0], "'all' = every axis x both sides = 2*dim faces")
+    # semantic: the side generator enumerates exactly {0, 1}, the axis generator range(len(kvs))
+    for g in comp[0].generators:
+        if isinstance(g.iter, (ast.Tuple, ast.List)) and all(isinstance(e, ast.Constant) for e in g.iter.elts):
+            sides = sorted(e.value for e in g.iter.elts)
+            ctx.decide('R10.4', cds.qual, "'all': sides %s" % sides, sides == [0, 1], g.iter, 'both the lower and the upper face of every axis', definite=True)
+        elif isinstance(g.iter, ast.Call) and call_name(g.iter) == 'range':
+            ctx.decide('R10.4', cds.qual, "'all': axes " + src(g.iter), src(g.iter).replace(' ', '') in ('range(len(kvs))', 'range(0,len(kvs))'), g.iter,
+                       'every axis of the space')
     for q in (A + '.boundary_dofs', A + '.boundary_cells'):
         f = ctx.prog.func(q)
         d = {src(s.targets[0]): src(s.value).replace(' ', '') for s in own_nodes(f.node) if isinstance(s, ast.Assign) and len(s.targets) == 1}
